@@ -46,16 +46,17 @@ PARTIAL = ("the responder theorem is about the answer-assembly functions given t
 def generate(rng, tier):
     quick = tier == "quick"
     cases = []
-    n = 6000 if quick else 100000
+    n = 10000 if quick else 100000
     for _ in range(n):
         cases.append(Case(L.gen_rel_case(rng), "rel"))
-    ns = 50 if quick else 1200
+    ns = 250 if quick else 2000
     for k in range(ns):
         cases.append(L.case_of(L.gen_resp(rng, "resp%d" % k), "sim-resp"))
         cases.append(L.case_of(L.gen_resp(rng, "respb%d" % k), "sim-resp"))
         cases.append(L.case_of(L.gen_host(rng, "host%d" % k), "sim-host"))
         cases.append(L.case_of(L.gen_ptr(rng, "ptr%d" % k), "sim-ptr"))
         cases.append(L.case_of(L.gen_svc(rng, "svc%d" % k), "sim-svc"))
+        cases.append(L.case_of(L.gen_mix(rng, "mix%d" % k), "sim-mix"))
     return cases
 
 
@@ -75,7 +76,7 @@ def nontrivial(line, result):
     if result == "SKIP":
         return False
     if line.startswith("lsim "):
-        return result not in ("-", "DEAD")
+        return result not in ("SIM -", "RSP -") and "DEAD" not in result
     return True
 
 
@@ -89,7 +90,10 @@ def known_class(line, impl_result, monitor_result):
         ca, cb = int(a.split("/")[3]), int(b.split("/")[3])
         flush_a = fa == "1" or ca & 0x8000
         flush_b = fb == "1" or cb & 0x8000
-        if monitor_result.startswith("FAIL") and bool(flush_a) != bool(flush_b) and impl_result.endswith(" 0"):
+        # matches = 0 (so the monitor's `matches implies rrdata_match` part holds), suppressed = 0:
+        # the rejection can only be "same record, TTL above half, not suppressed"
+        if monitor_result.startswith("FAIL suppression differs") and bool(flush_a) != bool(flush_b) \
+                and impl_result in ("OK 0 1 0", "OK 0 0 0"):
             return "C10-ka-flush-bit"
         return None
     # simulated-daemon cases: the monitor names the deviation(s) that explain the rejection
